@@ -135,20 +135,20 @@ def iteration_space(ctx, dev) -> None:
     bad = ""
     if ok_v:
         lst, p = Poly.symbol(ast.Call(func=ast.Name(id="len", ctx=ast.Load()), args=[v.value], keywords=[])), Poly.symbol(v.slice)
-        for d, pol in fv.controlling(t.A.node, within=zbody, skip_raising=True):
-            r = fv.res.resolve(fv.cfg.nodes[d].ast, d)
+        for r, pol, br in fv.atoms_at(t.A.node, within=zbody, skip_raising=True):
             cm = to_cmp(r, pol)
             if cm is None:
                 continue
             if cm == Cmp(lst - p, ">") or cm == Cmp(lst - p - Poly.const(1), ">="):
                 ok_g = True
-            elif any(call_fname(x) == "len" for x in [getattr(r, "left", None)] + list(getattr(r, "comparators", []))):
+            elif isinstance(r, ast.Compare) and any(call_fname(x) == "len" for x in [r.left] + list(r.comparators)):
                 bad = cm.pretty()
     ctx.rep.check(ok_g, rule, cb + "/bounds", "l[p] is read exactly when len(l) > p",
                   f"the element access is guarded by `{bad}`; expected len(l) - p > 0 (the last element would be skipped, or an IndexError raised)" if bad else "no guard len(l) > p dominates the element access", where=f.where(t.A.call))
     gbody = fv.cfg.loop_body[t.G]
-    exits = [n for n in (fv.cfg.nodes[i] for i in gbody) if n.kind == "stmt" and isinstance(n.ast, (ast.Break, ast.Continue, ast.Return))]
-    ctx.rep.check(not exits, rule, cb + "/no-exit", "no break/continue/return inside the emission nest", "an early exit inside the emission nest drops steps", where=f.where(exits[0].ast) if exits else w)
+    exits = [n for n in (fv.cfg.nodes[i] for i in gbody) if n.kind == "stmt" and isinstance(n.ast, (ast.Break, ast.Return))]
+    # `continue` is a guard clause: what it skips is exactly what the filter atoms of the step (C07.step-block/filter) allow
+    ctx.rep.check(not exits, rule, cb + "/no-exit", "no break/return inside the emission nest", "an early exit (break/return) inside the emission nest drops steps", where=f.where(exits[0].ast) if exits else w)
 
 
 # --------------------------------------------------------------------------- partition_volume
